@@ -1353,6 +1353,7 @@ _vbi_cache_foreach_page		(vbi_cache *		ca,
 	cache_page *cp;
 	struct ttx_page_stat *ps;
 	vbi_bool wrapped;
+	unsigned int n_wraps; /* since the last callback */
 
 	assert (NULL != ca);
 	assert (NULL != cn);
@@ -1371,6 +1372,7 @@ _vbi_cache_foreach_page		(vbi_cache *		ca,
 	ps = cache_network_page_stat (cn, pgno);
 
 	wrapped = FALSE;
+	n_wraps = 0;
 
 	for (;;) {
 		if (cp) {
@@ -1383,6 +1385,8 @@ _vbi_cache_foreach_page		(vbi_cache *		ca,
 
 			if (0 != r)
 				return r;
+
+			n_wraps = 0;
 		}
 
 		subno += dir;
@@ -1395,6 +1399,14 @@ _vbi_cache_foreach_page		(vbi_cache *		ca,
 				--ps;
 
 				if (pgno < 0x100) {
+					/* The statistics can promise pages
+					   we cannot find (replaced but still
+					   referenced pages, subno > 0xFF).
+					   Give up after a complete lap
+					   without a page. */
+					if (++n_wraps >= 2)
+						return 0;
+
 					pgno = 0x8FF;
 					ps = cache_network_page_stat(cn, pgno);
 					wrapped = TRUE;
@@ -1406,6 +1418,9 @@ _vbi_cache_foreach_page		(vbi_cache *		ca,
 				++ps;
 
 				if (pgno > 0x8FF) {
+					if (++n_wraps >= 2)
+						return 0;
+
 					pgno = 0x100;
 					ps = cache_network_page_stat(cn, pgno);
 					wrapped = TRUE;
